@@ -47,7 +47,7 @@ theorem tokens_not_pseudo (n : List Nat) (h : ∀ b ∈ n, lowerTchar b = true) 
   | nil => rfl
   | cons a r =>
     have ha := h a (by simp)
-    simp only [isPseudoName, List.head?_cons, beq_iff_eq, Option.some.injEq]
+    simp only [isPseudoName, List.head?_cons]
     cases hh : (some a == some 58) with
     | false => rfl
     | true =>
